@@ -90,7 +90,17 @@ type Env struct {
 	loop  *loopInfo
 	nq    *int
 	this  *SV
-	inOld bool // evaluating under old(...): parameters denote their entry values
+	inOld bool            // evaluating under old(...): parameters denote their entry values
+	bound map[string]bool // names bound by quantifiers / pure-function parameters: never resolved as program variables
+}
+
+// bind sets a spec-level name (bound variable, "v", "sent", argN, recv) that must shadow program variables.
+func (env *Env) bind(name string, v SV) {
+	env.vars[name] = v
+	if env.bound == nil {
+		env.bound = map[string]bool{}
+	}
+	env.bound[name] = true
 }
 
 func (env *Env) with(name string, v SV) *Env {
@@ -100,6 +110,11 @@ func (env *Env) with(name string, v SV) *Env {
 		e.vars[k] = x
 	}
 	e.vars[name] = v
+	e.bound = make(map[string]bool, len(env.bound)+1)
+	for k := range env.bound {
+		e.bound[k] = true
+	}
+	e.bound[name] = true
 	return &e
 }
 
@@ -351,6 +366,9 @@ func (env *Env) wantBool(v SV, what string) {
 
 func (env *Env) evalIdent(name string) SV {
 	vc := env.vc
+	if env.bound[name] {
+		return env.vars[name]
+	}
 	// inside a loop invariant a variable that the loop reassigns (even a parameter) is its header phi
 	if env.frame != nil && env.loop != nil && !env.inOld {
 		for _, ins := range env.loop.header.Instrs {
@@ -358,6 +376,14 @@ func (env *Env) evalIdent(name string) SV {
 				if v, ok := env.frame.regs[phi]; ok {
 					return SV{vc.term(env.st, v, "spec"), phi.Type()}
 				}
+			}
+		}
+	}
+	// inside invariants / call-site requirements, a reassigned parameter denotes its current value
+	if env.frame != nil && !env.inOld {
+		if bv, ok := vc.boundValue(env.frame, env.loop, name); ok {
+			if rv, have := env.frame.regs[bv]; have {
+				return SV{vc.term(env.st, rv, "spec"), bv.Type()}
 			}
 		}
 	}
@@ -561,6 +587,9 @@ func (env *Env) evalSel(x *ESel) SV {
 			}
 			if !resolvable && (env.pkg == nil || env.pkg.Scope().Lookup(id.Name) == nil) {
 				if p := env.findPkg(id.Name); p != nil {
+					if g, isGhost := vc.eng.db.Ghosts[x.Name]; isGhost && !g.Field {
+						return env.evalIdent(x.Name) // a ghost variable, qualified with its declaring package for readability
+					}
 					obj := p.Scope().Lookup(x.Name)
 					if obj == nil {
 						specFail("%s.%s not found", id.Name, x.Name)
@@ -641,9 +670,14 @@ func (env *Env) abstractField(base SV, g *GhostDecl) (SV, bool) {
 		for k, v := range captured.vars {
 			e2.vars[k] = v
 		}
+		e2.bound = map[string]bool{def.Param: true}
+		for k := range captured.bound {
+			e2.bound[k] = true
+		}
 		e2.vars[def.Param] = SV{V: i1, T: kt}
 		if i2 != nil {
 			e2.vars[def.Param2] = SV{V: i2, T: kt2}
+			e2.bound[def.Param2] = true
 		}
 		r := e2.eval(def.Body)
 		if r.V == nil {
@@ -839,6 +873,71 @@ func (env *Env) evalCall(x *ECall) SV {
 		specFail("len of %s", v.V.Sort.Name)
 	case "cap":
 		return SV{sliceCap(arg(0).V), ti}
+	case "spawncount":
+		// spawncount(site): goroutines started so far at the site-th go statement of the function
+		n, ok := x.Args[0].(*EInt)
+		if !ok {
+			specFail("spawncount(<literal go-statement ordinal>)")
+		}
+		if t, ok := env.st.ghosts["spawn"+n.V+"_n"]; ok {
+			return SV{t, ti}
+		}
+		return SV{IntLit(0), ti}
+	case "spawnarg":
+		// spawnarg(site, j): the array of the j-th argument of the goroutines started at that go statement
+		n, ok1 := x.Args[0].(*EInt)
+		j, ok2 := x.Args[1].(*EInt)
+		if !ok1 || !ok2 {
+			specFail("spawnarg(<site>, <argument index>)")
+		}
+		var et types.Type
+		if g := findGo(vc.fn, n.V); g != nil {
+			var idx int
+			fmt.Sscanf(j.V, "%d", &idx)
+			if slots := spawnSlotTypes(g); idx < len(slots) {
+				et = slots[idx]
+			}
+		}
+		if et == nil {
+			specFail("spawnarg: the function has no go statement %s with an argument %s", n.V, j.V)
+		}
+		t, ok := env.st.ghosts["spawn"+n.V+"_a"+j.V]
+		if !ok {
+			// nothing started yet on this path: the log is empty
+			t = vc.eng.st.Zero(vc.eng.st.ArrayOf(sortInt, vc.eng.st.SortOf(et)))
+		}
+		return SV{V: t, T: &ghostMapT{types.Typ[types.Int], et}}
+	case "callcount":
+		// callcount("f"): calls of the in-repo function f made so far through its contract
+		n, ok := x.Args[0].(*EStr)
+		if !ok {
+			specFail("callcount(<function name literal>)")
+		}
+		if _, ok := loggedCallee(vc.fn, n.V); !ok {
+			specFail("callcount: %s does not call a function named %s", vc.fn.Name(), n.V)
+		}
+		if t, ok := env.st.ghosts["call_"+n.V+"_n"]; ok {
+			return SV{t, ti}
+		}
+		return SV{IntLit(0), ti}
+	case "callarg":
+		n, ok1 := x.Args[0].(*EStr)
+		j, ok2 := x.Args[1].(*EInt)
+		if !ok1 || !ok2 {
+			specFail("callarg(<function name>, <argument index, receiver first>)")
+		}
+		pts, found := loggedCallee(vc.fn, n.V)
+		var idx int
+		fmt.Sscanf(j.V, "%d", &idx)
+		if !found || idx >= len(pts) {
+			specFail("callarg: %s does not call a function %s with an argument %s", vc.fn.Name(), n.V, j.V)
+		}
+		et := pts[idx]
+		t, ok := env.st.ghosts["call_"+n.V+"_a"+j.V]
+		if !ok {
+			t = vc.eng.st.Zero(vc.eng.st.ArrayOf(sortInt, vc.eng.st.SortOf(et)))
+		}
+		return SV{V: t, T: &ghostMapT{types.Typ[types.Int], et}}
 	case "chancap":
 		return SV{Select(vc.heap(env.st, "CHCAP", vc.eng.st.ArrayOf(sortInt, sortInt)), arg(0).V, sortInt), ti}
 	case "off":
@@ -1035,6 +1134,10 @@ func (env *Env) evalCall(x *ECall) SV {
 		for k, v := range env.vars {
 			inner.vars[k] = v
 		}
+		inner.bound = make(map[string]bool, len(env.bound)+len(pd.Params))
+		for k := range env.bound {
+			inner.bound[k] = true
+		}
 		for i, p := range pd.Params {
 			a := arg(i)
 			if a.T == nil {
@@ -1043,6 +1146,7 @@ func (env *Env) evalCall(x *ECall) SV {
 				}
 			}
 			inner.vars[p.Name] = a
+			inner.bound[p.Name] = true
 		}
 		return inner.eval(pd.Body)
 	}
@@ -1178,4 +1282,21 @@ func (vc *VC) box(st *State, v *Term, t types.Type) *Term {
 		vc.setHeap(st, n, Store(h, r, v))
 		return mkIface(tag, r)
 	}
+}
+
+func findGo(fn *ssa.Function, ord string) *ssa.Go {
+	var want int
+	fmt.Sscanf(ord, "%d", &want)
+	n := 0
+	for _, b := range fn.Blocks {
+		for _, ins := range b.Instrs {
+			if g, ok := ins.(*ssa.Go); ok {
+				if n == want {
+					return g
+				}
+				n++
+			}
+		}
+	}
+	return nil
 }
